@@ -193,10 +193,14 @@ CLAIMED.update({
          "class with equal values in every field -- args / kwargs modulo the wire format's inability to tell absent from "
          "empty. The real marshal, parse, constructor and property getters are inlined from the current source; validators "
          "and is_valid_enc_* enter through their C08-proved contracts. A counterexample is rebuilt with the real class and "
-         "replayed through marshal and parse.",
+         "replayed through marshal and parse. Batched mode of the MsgPack / CBOR / UBJSON object serializers: serialize() "
+         "returns exactly be32(len(d)) ++ d for d = pack(obj); unserialize() of a payload laid out as n such records "
+         "(first-order description by offsets) returns the n objects in order, for every n (loop invariant), over the "
+         "assumed codec law unpack(pack(o)) == o; three small lemmas tie a record to that description.",
     note="Trusted: z3, pyvc. Assumed, not decided: the third-party codecs (json, msgpack, cbor2, ubjson) and the batch "
-         "framing reproduce the marshalled list / dict / scalar structure -- so 'through each serializer', batching and "
-         "the binary flag are NOT decided (level 'other'). Hello / Welcome (role feature objects) and PUBLISH with "
+         "JSON batch format (split on \\x18) reproduce the marshalled list / dict / scalar structure -- so 'through each "
+         "serializer' is decided only up to the codec law (level 'other'); the offsets' monotonicity is part of the batch "
+         "description (a consequence of the recurrence by induction, not asked of the solver). Hello / Welcome (role feature objects) and PUBLISH with "
          "pre-serialized str / bytes args are not covered.",
     technique="contract-based deductive verification: AST->VC round-trip lemma per class over the real marshal/parse, untrusted list/dict value types, z3 strings + regex"),
 })
